@@ -155,14 +155,14 @@ def run(ck):
         acts, nid = default_actions(rng, mode, ns)
         rounds, tick = 70, 70
         tag = "%s.%d.%d.%d" % (mode, al, sc, ns)
-        base = L.exchange(mode, al, sc, ns, acts, rounds, tick)
+        base = L.exchange(mode, al, sc, ns, acts, rounds, tick, marks=True)
         n = L.frames_in(runner.run_batch(hcs, [("b", base)])["b"]["out"])
 
         def add(kind, lose=(), dup=()):
             sid = "%s.%s.%s%s" % (tag, kind, "_".join(map(str, sorted(lose)[:4])), ("+d" + "_".join(map(str, sorted(dup)))) if dup else "")
             if sid in meta:
                 return
-            scripts.append((sid, L.exchange(mode, al, sc, ns, acts, rounds, tick, lose=lose, dup=dup)))
+            scripts.append((sid, L.exchange(mode, al, sc, ns, acts, rounds, tick, lose=lose, dup=dup, marks=True)))
             meta[sid] = dict(mode=mode, al=al, ns=ns, kind=kind, lose=sorted(lose), dup=sorted(dup))
         add("base")
         for k in range(1, n + 1):
@@ -198,7 +198,7 @@ def run(ck):
             # 60870-5-2 SEND/CONFIRM and REQUEST/RESPOND tolerate (stated limit, see notes)
             ck.count("loss:dup-of-secondary-frame(not evaluated)")
             continue
-        errs, stats = L.fcb_check(o["out"], m["mode"], m["al"], m["ns"])
+        errs, stats = L.fcb_check(o["out"], m["mode"], m["al"], m["ns"], script=lines)
         for code, text in errs[:3]:
             ck.fail("input", "oracle:fcb:%s:%s" % (code, "balanced" if m["mode"] == "bal" else "unbalanced"), text + " [loss pattern %s %s]" % (m["kind"], m["lose"][:6]),
                     {"script": lines, "observed": [l for l in o["out"] if l[:2] in ("tx", "ml", "sl", "md", "sd")][-14:], "harness": "h_cs101"})
